@@ -21,11 +21,12 @@
    property's quantifier. *)
 From Coq Require Import List Bool Arith NArith.
 Import ListNotations.
+From DDP Require Export Lower.AbiTypes.
+From DDP Require Import Gen.AbiTables.
 
 (* ---------------------------------------------------------------------------------------------- *)
 (* DDP signatures                                                                                 *)
 (* ---------------------------------------------------------------------------------------------- *)
-Inductive prim := PZahl | PKommazahl | PByte | PWahrheitswert | PBuchstabe.
 
 (* [TNamed]: a type alias or a typedef; toIrType starts with ddptypes.TrueUnderlying, so it is
    transparent for the representation. [TList e]: e is never a list in a checked program (wf_ty);
@@ -72,25 +73,11 @@ Inductive rep :=
 (* ---------------------------------------------------------------------------------------------- *)
 (* C side: the header                                                                             *)
 (* ---------------------------------------------------------------------------------------------- *)
-Inductive cty :=
-| CInt64 | CDouble | CUInt8 | CBool | CInt32 | CChar | CVoid
-| CVtable                               (* ddpvtable, only ever behind a pointer *)
-| CPtr (t : cty)
-| CStruct (fs : list cty)
-| CAnyUnion.                            (* union { void *value_ptr; uint8_t value[16]; } *)
-
-Definition c_prim (p : prim) : cty :=
-  match p with
-  | PZahl => CInt64            (* typedef int64_t ddpint *)
-  | PKommazahl => CDouble      (* typedef double ddpfloat *)
-  | PByte => CUInt8            (* typedef uint8_t ddpbyte *)
-  | PWahrheitswert => CBool    (* typedef bool ddpbool *)
-  | PBuchstabe => CInt32       (* typedef int32_t ddpchar *)
-  end.
-
-Definition c_string : cty := CStruct [CPtr CChar; CInt64].              (* char *str; ddpint cap *)
-Definition c_any : cty := CStruct [CPtr CVtable; CAnyUnion].            (* vtable_ptr; union *)
-Definition c_list (e : cty) : cty := CStruct [CPtr e; CInt64; CInt64].  (* arr; len; cap *)
+(* the five typedefs and the struct bodies come from Gen/AbiTables.v, re-extracted from ddptypes.h *)
+Definition c_prim (p : prim) : cty := hdr_prim p.
+Definition c_string : cty := CStruct hdr_string_fields.            (* char *str; ddpint cap *)
+Definition c_any : cty := CStruct hdr_any_fields.                  (* vtable_ptr; union *)
+Definition c_list (e : cty) : cty := CStruct (hdr_list_fields e).  (* arr; len; cap *)
 
 Fixpoint c_ty (t : ty) : cty :=
   match t with
@@ -131,20 +118,11 @@ Fixpoint c_rep (c : cty) : rep :=
 (* ---------------------------------------------------------------------------------------------- *)
 (* compiler side                                                                                  *)
 (* ---------------------------------------------------------------------------------------------- *)
-Inductive llty :=
-| LI1 | LI8 | LI32 | LI64 | LDouble | LVoid
-| LPtr (t : llty)
-| LStruct (fs : list llty)
-| LArray (n : nat) (t : llty).
-
-Definition ll_prim (p : prim) : llty :=
-  match p with
-  | PZahl => LI64 | PKommazahl => LDouble | PByte => LI8 | PWahrheitswert => LI1 | PBuchstabe => LI32
-  end.
-
-Definition ll_string : llty := LStruct [LPtr LI8; LI64].
-Definition ll_any : llty := LStruct [LPtr LI8; LArray 16 LI8].
-Definition ll_list (e : llty) : llty := LStruct [LPtr e; LI64; LI64].
+(* re-extracted from helper.go (ddpint = i64 ...), ir_string_type.go, ir_any_type.go, list_types.go *)
+Definition ll_prim (p : prim) : llty := go_prim p.
+Definition ll_string : llty := LStruct go_string_fields.
+Definition ll_any : llty := LStruct go_any_fields.
+Definition ll_list (e : llty) : llty := LStruct (go_list_fields e).
 
 (* toIrType(t).IrType() *)
 Fixpoint ll_ty (t : ty) : llty :=
